@@ -50,10 +50,22 @@ def main():
                     for prop, rc, lines in ex.map(lambda p: run_check(p, dst, d), props):
                         if rc != 0:
                             alarms[prop] = [l[:300] for l in lines[:4]]
-                results[f"{st}/{pf}"] = {"props": props, "alarms": alarms}
+                prev = results.get(f"{st}/{pf}", {})
+                merged = {k: v for k, v in prev.get("alarms", {}).items() if k not in props}
+                merged.update(alarms)
+                results[f"{st}/{pf}"] = {"props": sorted(set(prev.get("props", [])) | set(props)), "alarms": merged}
                 print(st, pf, "SILENT" if not alarms else "FALSE-ALARM " + json.dumps(alarms)[:600], flush=True)
             finally:
                 shutil.rmtree(d, ignore_errors=True)
+    # merge with what another run may have written meanwhile
+    if os.path.exists(rp):
+        try:
+            disk = json.load(open(rp))
+            for k, v in disk.items():
+                if k not in results:
+                    results[k] = v
+        except Exception:
+            pass
     json.dump(results, open(rp, "w"), indent=1)
 
 
